@@ -272,15 +272,16 @@ def same_float(a, b):
 def as_float(a):
     """Series -> float64 array; exact for float64/float32/int.  An object series may hold anything the equations
     produced (Python's `(-2.0) ** 0.5` is complex): non-real elements become NaN."""
-    try:
+    a = np.asarray(a)
+    if a.dtype != object:
         return np.asarray(a, dtype=float)
-    except (TypeError, ValueError):
-        def one(x):
-            try:
-                return float(x)
-            except (TypeError, ValueError):
-                return float('nan')
-        return np.array([one(x) for x in a], dtype=float)
+
+    def one(x):
+        try:
+            return float('nan') if isinstance(x, (complex, np.complexfloating)) else float(x)
+        except (TypeError, ValueError):
+            return float('nan')
+    return np.array([one(x) for x in a], dtype=float)
 
 
 def same_arrays(d1, d2):
